@@ -100,6 +100,21 @@ class Contract:
         """{ExcName: condition}: ExcName may be raised only when condition holds (one direction)."""
         return {}
 
+    def post_ghost(self, c0, a):
+        """Ghost variables in force in the post-state (e.g. a module pending insertion); default: as on entry."""
+        return {}
+
+    def _in_post_ghost(self, eng, c0, a, fn):
+        g = self.post_ghost(c0, a)
+        if not g:
+            return fn()
+        saved = getattr(eng, "ghost", {})
+        eng.ghost = dict(saved, **g)
+        try:
+            return fn()
+        finally:
+            eng.ghost = saved
+
     def ghost_witness(self, c0, c1, a, res):
         """New values of ghost heap fields (e.g. $modpos) in the post-state: {key: array term}.  The ghost
         key must be listed in modifies."""
@@ -212,7 +227,10 @@ class Contract:
         if caller is not None and caller is not self:
             # ghost assertions of the caller placed right before this call: proved, then available
             for name, f in caller.before_call(self.short(), c0, a).items():
-                st.oblige("hint:%s.before(%s)" % (name, self.short()), f)
+                if caller.focus(name) is not None:
+                    st.obls.append(Obligation("hint:%s.before(%s)" % (name, self.short()), caller._sliced(st, name, []), f))
+                else:
+                    st.oblige("hint:%s.before(%s)" % (name, self.short()), f)
                 st.define(f, tag="hint." + name)
         for name, f in self.pre(c0, a).items():
             if caller is not None and caller.focus("callpre." + name) is not None:
@@ -251,7 +269,7 @@ class Contract:
             rt = self.result_term(c0, a)
             res = rt if rt is not None else make_symbolic(eng, st, "res_" + self.short().replace(".", "_"),
                                                           self.result)
-        for name, f in self.post(c0, c1, a, res).items():
+        for name, f in self._in_post_ghost(eng, c0, a, lambda: self.post(c0, c1, a, res)).items():
             st.define(f, tag="call:%s.post.%s" % (self.short(), name))
         for pname in self.inout:
             arg = a[pname]
@@ -360,7 +378,7 @@ class Contract:
                     if _exc_match(e, en):
                         allowed.append(cond)
                 goal = z3.Or(*allowed) if allowed else z3.BoolVal(False)
-                obls.append(Obligation("raises.%s.allowed/%s" % (e, tag), s.assumptions(), goal,
+                obls.append(Obligation("raises.%s.allowed/%s" % (e, tag), self._sliced(s, "raises." + e, []), goal,
                                        info={"path": s.trace, "exception": e}))
                 # exception safety clauses
                 c1 = Ctx(eng, dict(s.heap))
@@ -389,7 +407,16 @@ class Contract:
                                        info={"path": s.trace}))
             c1 = Ctx(eng, dict(s.heap))
             for gkey, gterm in self.ghost_witness(c0, c1, a, res).items():
-                c1.heap[gkey] = gterm        # ghost state has no code: the contract supplies the new value
+                # ghost state has no code: the contract supplies the new value, either as a term or pointwise as a
+                # function m -> value (then a fresh array defined by a triggered quantified fact)
+                if callable(gterm):
+                    srt = eng.schema.field_sort(gkey)
+                    arr = fresh("G_" + gkey.strip("$"), srt)
+                    m_ = z3.Const("gx", srt.domain())
+                    # (a definition of a fresh symbol: harmless for every other path, so it goes to the shared facts)
+                    s.facts.append(z3.ForAll([m_], z3.Select(arr, m_) == gterm(m_), patterns=[z3.Select(arr, m_)]))
+                    gterm = arr
+                c1.heap[gkey] = gterm
             if self.inout:
                 a = Args(a)
                 for pname in self.inout:
@@ -405,7 +432,7 @@ class Contract:
                 obls.append(Obligation("lemma.%s/%s" % (name, tag), self._sliced(s, "lemma." + name, lemmas), f,
                                        info={"path": s.trace}))
                 lemmas.append((name, f))
-            for name, f in self.post(c0, c1, a, res).items():
+            for name, f in self._in_post_ghost(eng, c0, a, lambda: self.post(c0, c1, a, res)).items():
                 obls.append(Obligation("post.%s/%s" % (name, tag), self._sliced(s, name, lemmas), f,
                                        info={"path": s.trace}))
             # frame
